@@ -69,22 +69,23 @@ add(H("C01", "c01_execute_session_empty", "verif_k::c04::execute_session_empty",
       unwindset=SESSION_LOOPS, timeout=300, about="execute_session on a session without text: status false, no slots, no panic"))
 
 # ----------------------------------------------------------------------------- C02 parser (compositional) + glue
-PARSER_LOOPS = (MEMCMP, (r"parse_binary|match_operator|map_parser|verif_k|left_spine|missing_token_adder|contains|find|iter|position", 7))
+PARSER_LOOPS = (MEMCMP, (r"parse_binary|match_operator|verif_k|left_spine|missing_token_adder|contains", 5))
+EXPERIMENTAL = ("experimental",)
 for n in (2, 3):
     add(H("C02", "c02_fold_leaf_%d" % n, "verif_k::c02::fold_leaf", str(n), stubs=("log", "fmt", "drop"), unwindset=PARSER_LOOPS, timeout=900,
-          tiers=("quick", "thorough") if n == 2 else ("thorough",),
+          tiers=EXPERIMENTAL,
           about="parse_binary::<Leaf> on n0 o n1 .. (%d symbolic operators from + - * /, symbolic accepted set {+,-} or {*,/}): left-nested chain over the maximal accepted prefix, operators and operands in order, cursor exactly behind it" % n))
-add(H("C02", "c02_ladder_levels", "verif_k::c02::ladder_levels", "", stubs=("log", "fmt", "drop"), unwindset=PARSER_LOOPS, timeout=900,
+add(H("C02", "c02_ladder_levels", "verif_k::c02::ladder_levels", "", stubs=("log", "fmt", "drop"), unwindset=PARSER_LOOPS, timeout=900, tiers=EXPERIMENTAL,
       about="MultiplyDivideParser folds * / only and leaves + - to its caller; AddSubtractParser folds any of the four at the root: a o b with symbolic o through the real Unary/Primative parsers"))
-add(H("C02", "c02_precedence_three", "verif_k::c02::precedence_three", "", stubs=("log", "fmt", "drop"), unwindset=PARSER_LOOPS, timeout=1200,
+add(H("C02", "c02_precedence_three", "verif_k::c02::precedence_three", "", stubs=("log", "fmt", "drop"), unwindset=PARSER_LOOPS, timeout=1200, tiers=EXPERIMENTAL,
       about="7 o1 2 o2 4 for all 16 operator pairs through the real parser ladder and interpreter equals the value given by precedence and left associativity"))
 for b, nm in (("true", "left"), ("false", "right")):
-    add(H("C02", "c02_parens_%s" % nm, "verif_k::c02::parens_three", b, stubs=("log", "fmt", "drop"), unwindset=PARSER_LOOPS, timeout=1200,
+    add(H("C02", "c02_parens_%s" % nm, "verif_k::c02::parens_three", b, stubs=("log", "fmt", "drop"), unwindset=PARSER_LOOPS, timeout=1200, tiers=EXPERIMENTAL,
           about="parenthesised %s group of three operands, all 16 operator pairs: the group is evaluated first, all 7 tokens consumed" % nm))
-add(H("C02", "c02_sign_prefix_inner", "verif_k::c02::sign_prefix_inner", "", stubs=("log", "fmt", "drop"), unwindset=PARSER_LOOPS, timeout=1200,
+add(H("C02", "c02_sign_prefix_inner", "verif_k::c02::sign_prefix_inner", "", stubs=("log", "fmt", "drop"), unwindset=PARSER_LOOPS, timeout=1200, tiers=EXPERIMENTAL,
       expect="finding:C02-detached-sign", finding_match=("sign_prefix_inner",),
       about="7 o1 (+|-) 2 o2 4: a detached sign negates its operand only and the rest of the line is still evaluated"))
 for n in (3, 4):
     add(H("C02", "c02_glue_missing_%d" % n, "verif_k::c02::glue_missing_tokens", str(n), stubs=("log", "fmt", "drop"), unwindset=PARSER_LOOPS, timeout=900,
-          tiers=("quick", "thorough") if n == 3 else ("thorough",),
+          tiers=EXPERIMENTAL,
           about="missing_token_adder on all operand/operator lists of length %d: '+' inserted exactly between adjacent operands, 0 before a leading operator" % n))
